@@ -18,14 +18,19 @@ THEOREMS = ['C02_gen_complete', 'C02_shift_down', 'C02_shift_up',
             'C02_radius_scaling', 'C02_dlon_commutes',
             'C02_div_kcross', 'C02_curl_kcross', 'C02_curl_grad_spectral', 'C02_div_grad_spectral',
             'C02_vecid_sec2', 'C02_grad_top_clipped',
-            'C02_hyps_satisfiable', 'C02_cos2_hyps_satisfiable_R', 'C02_legendre_derivative_relation_partial']
+            'C02_hyps_satisfiable', 'C02_cos2_hyps_satisfiable_R', 'C02_legendre_derivative_relation_abstract',
+            'C02_legendre_derivative_relation', 'C02_legendre_derivative_meaning', 'C02_legendre_derivative_nonvacuous']
 LEVEL = 'proof'
 LEVEL_TEXT = ('machine-checked theorems (Coq) for every field, every truncation (M, L), every padding and every radius r <> 0 '
               'about the Gallina model of shift / d_dlon / cos_lat_d_dlat / sec_lat_d_dlat_cos2 / laplacian / inverse_laplacian / '
               'clip / grad / div / curl / k_cross / get_cos_lat_vector, whose arithmetic expressions are regenerated from the source; '
               'facts about the sqrt tables (H_eps2, b = shifted a, +-m symmetry) and the analytic derivatives of the Legendre basis are '
               'table obligations checked on every explored grid; the model is executed (extraction) against the implementation')
-LEVEL_NOTE = ('theorems are about Model/Deriv.v + Gen/DerivExprs.v; the nodal transforms (to_nodal/to_modal, sec^2 multiplication) are not '
+LEVEL_NOTE = ('The table obligation "analytic-derivative relations of every basis function" is now ALSO a theorem about the recurrence of '
+              'associated_legendre.py (C02_legendre_derivative_relation: (1-x^2) d/dx P_l^m = d1_wm(l, eps_l) P_(l-1)^m + d1_wp(l, eps_(l+1)) P_(l+1)^m on the '
+              'coefficient-list model with the formal derivative, every field / order / degree / node, under sqrt-squares-to-radicand hypotheses); '
+              'the numeric obligation is kept. '
+              'theorems are about Model/Deriv.v + Gen/DerivExprs.v; the nodal transforms (to_nodal/to_modal, sec^2 multiplication) are not '
               'modelled here: identities that need them (curl grad = 0, div grad = laplacian, wind round trip) are proved from the abstract '
               'hypotheses H_sec2 (checked as table obligations on every basis vector) and evaluated as oracles on the implementation. '
               'Measured: with the default clip=True these hold only for fields whose top TWO total wavenumbers vanish (degree <= L-3); '
